@@ -48,6 +48,11 @@ func h05Schemas() [][]string {
 			`module a { namespace "urn:a"; prefix a; import m { prefix m; } augment /m:c { leaf x { type string; } } }`,
 			`module b { namespace "urn:b"; prefix b; import m { prefix m; } augment /m:c { leaf x { type int8; } } }`,
 			`module z { namespace "urn:z"; prefix z; }`},
+		// typedef cycles that close through union members; a chain of imports with two missing modules
+		{`module ta { namespace "urn:ta"; prefix ta; typedef A { type union { type B; type string; } } typedef B { type union { type A; type int8; } } }`,
+			`module ia { namespace "urn:ia"; prefix ia; import ib { prefix ib; } import missing-d { prefix d; } }`,
+			`module ib { namespace "urn:ib"; prefix ib; import missing-c { prefix c; } }`,
+			`module zz { namespace "urn:zz"; prefix zz; }`},
 		// two revisions of one module and importers, deviations with several deviate kinds
 		{`module lib { namespace "urn:lib"; prefix lib; revision 2019-01-01; typedef t { type int8; } leaf v { type t; default 1; } }`,
 			`module lib { namespace "urn:lib"; prefix lib; revision 2020-01-01; typedef t { type int16; } leaf v { type t; default 2; } leaf-list ll { type string; max-elements 4; } }`,
